@@ -38,7 +38,7 @@ Record case := mkCase8 {
   k_stall : list nat;                       (* per subscriber: 0 never, 1 transient, 2 permanent *)
   k_pre : list wop;
   k_ops : list (wop * wres);
-  k_orders : list (list path);              (* per subscriber: updated paths in stream order (walk order hint) *)
+  k_steps : list (cstep * sobs);            (* the run, one atomic step after the other, as logged *)
   k_streams : list (list resp);
   k_ended : list bool;
   k_dump : list (path * (Z * Z));
@@ -49,199 +49,19 @@ Record case := mkCase8 {
   k_late : bool;                            (* the last subscriber starts after everything else is over *)
 }.
 
-(** ** Model side: the schedule of the scenario *)
+(** ** Model side: the run as the harness logged it, replayed *)
 
-Definition hy : hyps := mkHyps true false false.
-
-Definition ostep (st : option state) (lb : label) : option state :=
-  match st with Some s => step hy s lb | None => None end.
-
-Fixpoint feed_all (fuel : nat) (st : state) (after : state -> option state) : option state :=
-  match fuel with
-  | O => Some st
-  | S f => match step hy st (LFeed 0) with
-           | Some st1 => match after st1 with Some st2 => feed_all f st2 after | None => None end
-           | None => Some st
-           end
-  end.
-
-(** what the dequeues of subscriber [i] reported, newest last *)
-Definition deqlog := list (list (nat * nat)).
-
-Definition log_deq (lg : deqlog) (i : nat) (st : state) : deqlog :=
-  match nth_error (st_subs st) i with
-  | Some sb => match s_infl sb with
-               | Some (_, d) => upd_nth i (fun l => l ++ [(d, List.length (s_queue sb))]) lg
-               | None => lg
-               end
-  | None => lg
-  end.
-
-(** sender of [i] runs until its queue is empty *)
-Fixpoint drain (fuel : nat) (i : nat) (st : state) (lg : deqlog) : option (state * deqlog) :=
-  match fuel with
-  | O => Some (st, lg)
-  | S f =>
-      match step hy st (LDeq i) with
-      | None => Some (st, lg)
-      | Some st1 =>
-          let lg1 := log_deq lg i st1 in
-          match step hy st1 (LRead i) with
-          | None => None
-          | Some st2 => match step hy st2 (LSent i) with
-                        | None => None
-                        | Some st3 => drain f i st3 lg1
-                        end
-          end
-      end
-  end.
-
-(** sender of a stalled subscriber: one dequeue, then inside Send *)
-Definition stick (i : nat) (st : state) (lg : deqlog) : option (state * deqlog) :=
-  match step hy st (LDeq i) with
-  | None => Some (st, lg)
-  | Some st1 => match step hy st1 (LRead i) with
-                | None => None
-                | Some st2 => Some (st2, log_deq lg i st1)
-                end
-  end.
-
-Definition is_stuck (st : state) (i : nat) : bool :=
-  match nth_error (st_subs st) i with
-  | Some sb => match s_out sb with Some _ => true | None => false end
-  | None => false
-  end.
-
-(** all senders react to what was just announced *)
-Fixpoint senders (stall : list nat) (i : nat) (st : state) (lg : deqlog) : option (state * deqlog) :=
-  match stall with
-  | [] => Some (st, lg)
-  | k :: stall' =>
-      let r := if Nat.eqb k 0 then drain 50 i st lg
-               else if is_stuck st i then Some (st, lg) else stick i st lg in
-      match r with
-      | Some (st', lg') => senders stall' (S i) st' lg'
-      | None => None
-      end
-  end.
-
-Fixpoint feed_senders (fuel : nat) (stall : list nat) (st : state) (lg : deqlog) : option (state * deqlog) :=
-  match fuel with
-  | O => Some (st, lg)
-  | S f => match step hy st (LFeed 0) with
-           | None => Some (st, lg)
-           | Some st1 => match senders stall 0 st1 lg with
-                         | Some (st2, lg2) => feed_senders f stall st2 lg2
-                         | None => None
-                         end
-           end
-  end.
-
-Fixpoint pre_writes (st : state) (ops : list wop) : option state :=
-  match ops with
-  | [] => Some st
-  | o :: ops' => match step hy st (LWrite 0 o) with
-                 | Some st1 => match feed_all 50 st1 (fun s => Some s) with
-                               | Some st2 => pre_writes st2 ops'
-                               | None => None
-                               end
-                 | None => None
-                 end
-  end.
-
-Fixpoint subscribe_all (c : case) (i n : nat) (st : state) (lg : deqlog) : option (state * deqlog) :=
-  match n with
-  | O => Some (st, lg)
-  | S n' =>
-      match cstep_run hy st (CRegAll i) with
-      | Some (st1, _) =>
-          let uo := match nth_error (k_subs c) i with Some (_, b) => b | None => false end in
-          let st3 := if uo then Some st1
-                     else match cstep_run hy st1 (CWalk i (nth i (k_orders c) [])) with
-                          | Some (st2, _) => step hy st2 (LSync i)
-                          | None => None
-                          end in
-          match st3 with
-          | Some st3 => match drain 50 i st3 lg with
-                        | Some (st4, lg4) => subscribe_all c (S i) n' st4 lg4
-                        | None => None
-                        end
-          | None => None
-          end
-      | None => None
-      end
-  end.
-
-(** phase 2; the index of the first write whose result class differs *)
-Fixpoint phase2 (c : case) (k : nat) (ops : list (wop * wres)) (st : state) (lg : deqlog)
-  : (state * deqlog) + nat :=
-  match ops with
-  | [] => inl (st, lg)
-  | (o, r) :: ops' =>
-      match step hy st (LWrite 0 o), write hy st 0 o with
-      | Some st1, Some (_, r') =>
-          if wres_eqb r r' then
-            match feed_senders 50 (k_stall c) st1 lg with
-            | Some (st2, lg2) => phase2 c (S k) ops' st2 lg2
-            | None => inr k
-            end
-          else inr k
-      | _, _ => inr k
-      end
-  end.
-
-Fixpoint finish (stall : list nat) (i : nat) (st : state) (lg : deqlog) : option (state * deqlog) :=
-  match stall with
-  | [] => Some (st, lg)
-  | k :: stall' =>
-      let r :=
-        if is_stuck st i then
-          if Nat.eqb k 1 then
-            match step hy st (LSent i) with Some st1 => drain 50 i st1 lg | None => None end
-          else match step hy st (LTimeout i) with Some st1 => Some (st1, lg) | None => None end
-        else Some (st, lg) in
-      match r with
-      | Some (st', lg') => finish stall' (S i) st' lg'
-      | None => None
-      end
-  end.
-
-Definition pair_eqb (a b : nat * nat) : bool := Nat.eqb (fst a) (fst b) && Nat.eqb (snd a) (snd b).
+Definition hy : hyps := mkHyps false false.
 
 Definition model_side (c : case) : list (nat * N) :=
-  let nall := List.length (k_subs c) in
-  let n := if k_late c then Nat.pred nall else nall in
-  match pre_writes (init 1 (k_subs c)) (k_pre c) with
-  | None => [(0%nat, 1%N)]
-  | Some st0 =>
-      match subscribe_all c 0 n st0 (repeat [] nall) with
-      | None => [(1%nat, 1%N)]
-      | Some (st1, lg1) =>
-          (* the dequeue log starts with phase 2 (the only part that is a known schedule) *)
-          match phase2 c 0 (k_ops c) st1 (repeat [] nall) with
-          | inr k => [((10 + k)%nat, 1%N)]
-          | inl (st2, lg2) =>
-              match match finish (k_stall c) 0 st2 lg2 with
-                    | Some (st3, lg3) =>
-                        if k_late c
-                        then match subscribe_all c n 1 st3 lg3 with
-                             | Some (st4, _) => Some (st4, lg3)   (* its dequeues are not logged *)
-                             | None => None
-                             end
-                        else Some (st3, lg3)
-                    | None => None
-                    end with
-              | None => [(2%nat, 1%N)]
-              | Some (st3, lg3) =>
-                  if list_eqb (list_eqb resp_eqb) (map s_sent (st_subs st3)) (k_streams c)
-                     && list_eqb Bool.eqb (map s_end (st_subs st3)) (k_ended c)
-                     && forallb (fun pc => ocont_eqb (cache_at st3 (fst pc)) (Some (snd pc))) (k_dump c)
-                     && Nat.eqb (List.length (k_dump c)) (List.length (st_tree st3))
-                  then if list_eqb (list_eqb pair_eqb) lg3 (k_deq c) then [] else [(4%nat, 1%N)]
-                  else [(3%nat, 1%N)]
-              end
-          end
-      end
+  match validate hy (init 1 (k_subs c)) 0 (k_steps c) with
+  | inr i => [(i, 1%N)]
+  | inl st =>
+      if list_eqb (list_eqb resp_eqb) (map s_sent (st_subs st)) (k_streams c)
+         && list_eqb Bool.eqb (map s_end (st_subs st)) (k_ended c)
+         && forallb (fun pc => ocont_eqb (cache_at st (fst pc)) (Some (snd pc))) (k_dump c)
+         && Nat.eqb (List.length (k_dump c)) (List.length (st_tree st))
+      then [] else [(List.length (k_steps c), 1%N)]
   end.
 
 (** ** Specification side K_P *)
